@@ -139,7 +139,12 @@ func TestGet(t *testing.T) {
 						}
 						done <- o
 					}()
+					// every other row: a caller without a deadline of its own — when no trusted peer answers validly the
+					// call fails by itself (request timeouts, resets), it does not wait for the caller to give up
 					ctx, cancel := context.WithTimeout(bg, time.Minute)
+					if id%2 == 1 {
+						ctx, cancel = context.WithTimeout(bg, 10*time.Hour)
+					}
 					defer cancel()
 					if mbt.Str(in, "op") == "Get" {
 						o.h, o.err = ex.Get(ctx, wanted.Hash())
